@@ -6853,7 +6853,7 @@ class HCI_LE_Extended_Advertising_Report_Event(HCI_LE_Meta_Event):
         primary_phy: int = field(metadata=metadata(Phy.type_spec(1)))
         secondary_phy: int = field(metadata=metadata(Phy.type_spec(1)))
         advertising_sid: int = field(metadata=metadata(1))
-        tx_power: int = field(metadata=metadata(1))
+        tx_power: int = field(metadata=metadata(-1))
         rssi: int = field(metadata=metadata(-1))
         periodic_advertising_interval: int = field(metadata=metadata(2))
         direct_address_type: int = field(metadata=metadata(Address.ADDRESS_TYPE_SPEC))
